@@ -173,7 +173,34 @@ class Session:
             except Exception as e:      # noqa: we observe everything
                 out = ro
                 err = e
+        if err is None:
+            self._merged_in_place(ro, out, msg)
         return out, err, wl
+
+    @staticmethod
+    def _safe_str(x):
+        try:
+            return str(x)
+        except Exception:
+            return None
+
+    def _merged_in_place(self, ro, out, msg):
+        """A message is merged INTO the running order it is given (ro + msg, msg.merge(ro) and ro += msg are one
+        operation; collections, the CLI and callers who keep the object rely on it): when the call hands back
+        another object, the one that was given must hold the same content."""
+        if out is ro or out is None:
+            return
+        try:
+            same = str(out) == str(ro)
+        except Exception:
+            same = False
+        self.hist['merge_results_that_are_another_object'] += 1
+        if not same:
+            self.custom_violation('merge-did-not-change-the-running-order-it-was-given',
+                                  {'message': type(msg).__name__, 'returned': type(out).__name__},
+                                  {'type': 'in-place', 'ro_txt': self._safe_str(ro), 'msg_txt': self._safe_str(msg)},
+                                  msg_kind=type(msg).__name__,
+                                  status='in-place')
 
     # -- judging
     def judge_event(self, ev, delivered=None, ctx=None):
@@ -350,6 +377,8 @@ class Session:
             if sys.flags.bytes_warning >= 2:
                 warnings.simplefilter('error', BytesWarning)
             ro2, err = attach.direct_merge(ro, msg)
+        if err is None:
+            self._merged_in_place(ro, ro2, msg)
         delivered = [type(w.message).__name__ for w in wl]
         judged = self.drain_and_judge(delivered, ctx)
         self.hist['direct_merges'] += 1
